@@ -65,7 +65,7 @@ class Contracts:
                     raise Undecided("%s:%d: bad section header" % (fname, ln))
                 item, anchor = parts[0], parts[1:]
                 a0 = anchor[0]
-                if a0 in ("ret", "t8", "t8p", "t8o", "t10", "foriter", "external", "skip_body", "trait", "rename", "strip_mut", "t14", "nocanary", "effects", "effects_pass", "effects_sig"):
+                if a0 in ("ret", "t8", "t8p", "t8o", "t10", "foriter", "external", "skip_body", "trait", "rename", "strip_mut", "t14", "nocanary", "effects", "effects_pass", "effects_sig", "crashpoints"):
                     self.flags.setdefault(item, {}).setdefault(a0, []).append(anchor[1:])
                     cur = None
                     continue
@@ -303,7 +303,7 @@ def emit_fn(data, it, ckey, C, tlog, anchors_used, canary=False):
     sect = C.sections.get(ckey, {})
     for key, text in sect.items():
         parts = key.split()
-        if parts[0] in ("spec", "attrs", "entry"):
+        if parts[0] in ("spec", "attrs", "entry", "crash_inv", "crash_pre"):
             continue
         if parts[0] == "subst":
             # T18: literal expression rewrites `FROM => TO` (one per line) for spellings Verus cannot type (e.g. the
@@ -480,6 +480,34 @@ def emit_fn(data, it, ckey, C, tlog, anchors_used, canary=False):
                 npass += 1
         tlog.append({"t": "T17", "item": it["path"], "wrapped_calls": nw, "passed_on": npass,
                      "note": "ghost effect log threaded through the signature; message arguments of %s wrapped in vx_note(&RECEIVER, ARG, log) (run-time identity on ARG; the receiver must be a plain field path / local)" % sorted(eff_names)})
+    # T19: crash points.  After EVERY statement that holds a call of one of the listed file-mutating methods (`write_all`, `set_len`)
+    # the ghost assertion given in the `crash_inv` section is inserted: the invariant that must hold of the disk image at every
+    # instant between two file mutations.  The places come from the syn call spans of the CURRENT text — a mutation that is added,
+    # removed, split in two or moved gets / loses / moves its check with it; no sidecar line says where the writes are.
+    cp_names = set(x for fl in C.flag(ckey, "crashpoints") for x in fl)
+    if cp_names:
+        inv = C.get(ckey, "crash_inv")
+        if inv is None:
+            raise Undecided("T19: %s has `crashpoints` but no `crash_inv` section" % ckey)
+        anchors_used.add("crash_inv")
+        ncp = 0
+        for c in sorted(f.get("calls", []), key=lambda c_: c_["start"]):
+            if c["name"] not in cp_names or not c.get("method"):
+                continue
+            if c.get("in_closure"):
+                raise Undecided("unsupported construct: file mutation `%s` inside a closure / async block of %s" % (c["name"], it["path"]))
+            st = c.get("stmt")
+            if not st:
+                raise Undecided("lost anchor: file mutation `%s` in %s is not inside a statement" % (c["name"], it["path"]))
+            ncp += 1
+            pre = C.get(ckey, "crash_pre")
+            if pre is not None:
+                # ghost snapshot taken just before the mutation (same text at every point)
+                ed.insert(st["start"], pre.replace("$N", str(ncp)), order=50)
+                anchors_used.add("crash_pre")
+            ed.insert(st["end"], "\n" + inv.replace("$N", str(ncp)), order=50)
+        tlog.append({"t": "T19", "item": it["path"], "crash_points": ncp,
+                     "note": "ghost assertion `crash_inv` inserted after every statement holding a call of %s (erased before compilation)" % sorted(cp_names)})
     for fi in C.flag(ckey, "foriter"):
         n = int(fi[0]); nm = fi[1]
         if n not in loops or loops[n]["kind"] != "for":
